@@ -843,6 +843,7 @@ func c19RunD6(c *Ctx, n *c19Nil, taint *c19Taint, fns []*ssa.Function) {
 	c.count("D6.length_precondition_call_sites", nSites)
 	c.count("D6.length_established", nEstablished)
 	c.count("D6.internal_buffers", nInternal)
+	c19RunD9(c, l)
 }
 
 // c19IsTestingParam: *testing.T, *testing.B, testing.TB.
@@ -940,4 +941,209 @@ func c19CallbackRoots(c *Ctx) []c19Callback {
 		}
 	}
 	return out
+}
+
+// ---------------------------------------------------------------------------
+// D9: index into a fixed-size array
+
+// indexBound: an exclusive upper bound of integer v that holds on every path to at (-1: none),
+// and, when the only bound found is the length of a byte slice that has no upper bound itself,
+// that slice.
+func (l *c19Len) indexBound(v ssa.Value, at ssa.Instruction) (ub int64, why string, unbounded ssa.Value) {
+	ub = -1
+	take := func(k int64, w string) {
+		if k >= 0 && (ub < 0 || k < ub) {
+			ub, why = k, w
+		}
+	}
+	if k, ok := constInt(v); ok {
+		return k + 1, "constant index", nil
+	}
+	if b, ok := v.Type().Underlying().(*types.Basic); ok && b.Kind() == types.Uint8 {
+		take(256, "index of type uint8")
+	}
+	if bo, ok := v.(*ssa.BinOp); ok && bo.Op == token.AND {
+		for _, o := range []ssa.Value{bo.X, bo.Y} {
+			if m, ok := constInt(o); ok && m >= 0 {
+				take(m+1, fmt.Sprintf("index masked with %d", m))
+			}
+		}
+	}
+	blk := at.Block()
+	for _, b := range blk.Parent().Blocks {
+		if len(b.Instrs) == 0 || len(b.Succs) != 2 {
+			continue
+		}
+		ifi, ok := b.Instrs[len(b.Instrs)-1].(*ssa.If)
+		if !ok {
+			continue
+		}
+		cond, neg := ifi.Cond, false
+		for {
+			u, ok := cond.(*ssa.UnOp)
+			if !ok || u.Op != token.NOT {
+				break
+			}
+			cond, neg = u.X, !neg
+		}
+		bo, ok := cond.(*ssa.BinOp)
+		if !ok {
+			continue
+		}
+		var k ssa.Value
+		op := bo.Op
+		switch {
+		case bo.X == v:
+			k = bo.Y
+		case bo.Y == v:
+			k, op = bo.X, c19Mirror(bo.Op)
+		default:
+			continue
+		}
+		d0 := edgeDominates(edge{b, b.Succs[0]}, blk)
+		d1 := edgeDominates(edge{b, b.Succs[1]}, blk)
+		if d0 == d1 {
+			continue
+		}
+		if taken := d0 != neg; !taken {
+			switch op {
+			case token.LSS:
+				op = token.GEQ
+			case token.LEQ:
+				op = token.GTR
+			case token.GTR:
+				op = token.LEQ
+			case token.GEQ:
+				op = token.LSS
+			case token.EQL:
+				op = token.NEQ
+			case token.NEQ:
+				op = token.EQL
+			}
+		}
+		// v op k holds at the site
+		excl := int64(0)
+		switch op {
+		case token.LSS:
+			excl = 0
+		case token.LEQ, token.EQL:
+			excl = 1
+		default:
+			continue
+		}
+		where := "comparison at " + l.c.pos(posOf(ifi))
+		if kc, ok := constInt(k); ok {
+			take(kc+excl, where)
+			continue
+		}
+		if s, ok := c19IsLenOf(k); ok {
+			if n, isArr := c19ArrayLen(s.Type()); isArr {
+				take(n+excl, where+" with the length of an array")
+				continue
+			}
+			f := l.fact(s, at, 0, map[ssa.Value]bool{})
+			if f.Known && f.Hi >= 0 {
+				take(f.Hi+excl, where+" with len of a slice that has "+f.String())
+			} else if unbounded == nil {
+				unbounded = s
+			}
+		}
+	}
+	return ub, why, unbounded
+}
+
+// indexUntrusted: the index is computed from an element of untrusted bytes.
+func (l *c19Len) indexUntrusted(v ssa.Value, depth int) string {
+	if depth > 4 {
+		return ""
+	}
+	switch x := v.(type) {
+	case *ssa.Convert:
+		return l.indexUntrusted(x.X, depth+1)
+	case *ssa.BinOp:
+		if s := l.indexUntrusted(x.X, depth+1); s != "" {
+			return s
+		}
+		return l.indexUntrusted(x.Y, depth+1)
+	case *ssa.UnOp:
+		if x.Op == token.MUL {
+			if ia, ok := x.X.(*ssa.IndexAddr); ok && c19IsByteSlice(ia.X.Type()) {
+				if s := l.untrusted(ia.X, 0, map[ssa.Value]bool{}); s != "" {
+					return "a value read from " + s
+				}
+			}
+		}
+	}
+	return ""
+}
+
+func c19RunD9(c *Ctx, l *c19Len) {
+	nSites := 0
+	for _, fn := range c.W.ModFuncs {
+		if fn.Synthetic != "" && fn.Origin() == nil {
+			continue
+		}
+		k := 0
+		for _, b := range fn.Blocks {
+			if b == fn.Recover {
+				continue
+			}
+			for _, in := range b.Instrs {
+				var x, idx ssa.Value
+				switch u := in.(type) {
+				case *ssa.IndexAddr:
+					x, idx = u.X, u.Index
+				case *ssa.Index:
+					x, idx = u.X, u.Index
+				default:
+					continue
+				}
+				n, ok := c19ArrayLen(x.Type())
+				if !ok {
+					continue
+				}
+				if kc, isC := constInt(idx); isC && kc < n {
+					continue // checked by the compiler
+				}
+				k++
+				nSites++
+				c.analysed(fn)
+				construct := fmt.Sprintf("%s+index of [%d]%s", fnName(fn), n, types.TypeString(c19ArrayElem(x.Type()), c19Qual))
+				if k > 1 {
+					construct += fmt.Sprintf("#%d", k)
+				}
+				ub, why, unbounded := l.indexBound(idx, in)
+				switch {
+				case ub >= 0 && ub <= n:
+					c.ok("D9", construct, posOf(in), "index into an array of %d elements is below %d on every path (%s)", n, ub, why)
+				case ub > n:
+					c.fail("D9", construct, posOf(in), "index into an array of %d elements is only known to be below %d (%s): an index of %d or more panics (index out of range)", n, ub, why, n)
+				case unbounded != nil:
+					if src := l.untrusted(unbounded, 0, map[ssa.Value]bool{}); src != "" {
+						f := l.fact(unbounded, in, 0, map[ssa.Value]bool{})
+						c.fail("D9", construct, posOf(in), "index into an array of %d elements runs over a byte slice whose length is not limited to %d (%s; known: %s): a longer input panics (index out of range) instead of being answered with an error", n, n, src, f.String())
+					} else {
+						c.ok("D9", construct, posOf(in), "index into an array of %d elements is bounded by the length of a slice that is neither a protobuf message field, nor the argument of an exported helper, nor a whole-stream read; not decided further", n)
+					}
+				default:
+					if src := l.indexUntrusted(idx, 0); src != "" {
+						c.fail("D9", construct, posOf(in), "index into an array of %d elements is computed from %s without a bound", n, src)
+					} else {
+						c.ok("D9", construct, posOf(in), "index into an array of %d elements has no bound the rule can derive, and is not computed from untrusted bytes; not decided further", n)
+					}
+				}
+			}
+		}
+	}
+	c.count("D9.array_index_sites_with_variable_index", nSites)
+}
+
+func c19ArrayElem(t types.Type) types.Type {
+	if p, ok := t.Underlying().(*types.Pointer); ok {
+		t = p.Elem()
+	}
+	if a, ok := t.Underlying().(*types.Array); ok {
+		return a.Elem()
+	}
+	return t
 }
